@@ -34,10 +34,20 @@ def main():
         print('%-10s target=%s %-12s flagged=%s  %s' % rows[-1])
     # restore evidence for the unchanged tree
     sh('python3 %s/check.py all' % HERE, cwd=VERIF)
-    with open(os.path.join(VERIF, 'seeded', 'RESULTS.md'), 'w') as f:
+    res = os.path.join(VERIF, 'seeded', 'RESULTS.md')
+    if flt and os.path.exists(res):
+        # a partial run: keep the rows of the seeds that were not re-run
+        done = {r[0] for r in rows}
+        for l in open(res):
+            m = re.match(r'\| (S-\S+) \| (\S+) \| ([^|]+) \| ([^|]*) \| (.*) \|\s*$', l)
+            if m and m.group(1) not in done:
+                rows.append(tuple(x.strip() for x in m.groups()))
+        rows.sort()
+    with open(res, 'w') as f:
         f.write('| seed | target property | result | properties flagged | how |\n|---|---|---|---|---|\n')
         for r in rows:
             f.write('| %s | %s | %s | %s | %s |\n' % r)
+        f.write('\n(tools/seedtest.py: every patch applied to /repo, all checks run in the quick tier, patch undone)\n')
     print('%d/%d caught' % (sum(1 for r in rows if r[2] == 'CAUGHT'), len(rows)))
 
 if __name__ == '__main__':
